@@ -403,7 +403,7 @@ func checkC19(tier string) int {
 			return world.Params{Frankenstein: int64(i % 2), NumGenesisVals: 4 + i%4, NumCandidates: 1, TopValidators: 8, ReleaseTime: int64(i % 3 / 2)}
 		},
 		newMon: func(w *world.World) func(run *hist.Runner, blk *hist.Block) []mon.Finding {
-			return wrapStateful(mon.C19)
+			return wrapStateful(mon.NewC19().OnBlock)
 		},
 		tune: func(cfg *drive.Cfg, i int) {
 			if i%3 == 2 {
